@@ -101,11 +101,24 @@ fn invalid_case(args: &Args, r: &mut Report, i: u64, rng: &mut Rng) {
             apps[bad].version = [0, 0, 0, 0];
         }
     }
-    let setup = Setup { apps, start_mode: true, cup: rng.bool(), ..Default::default() };
+    // in a third of the cases the app set is still valid when start() is called and becomes invalid before the
+    // returned stream is polled for the first time (the machine has not started yet)
+    let late = rng.chance(1, 3);
+    let valid_apps = gen_apps(rng, n);
+    let setup = Setup { apps: if late { valid_apps } else { apps }, start_mode: true, cup: rng.bool(), ..Default::default() };
     let mut case = FlowCase::new(setup, Script::default());
-    case.shape = vec!["invalid-app".into(), format!("n{} pos{} kind{}", n, bad, kind)];
+    case.shape = vec!["invalid-app".into(), format!("n{} pos{} kind{} late={}", n, bad, kind, late)];
     case.nontrivial = true;
-    let run = run_case(&case, rng);
+    let run = if late {
+        let w = make_world(&case);
+        let mut d = Driver::new(&w, &case.setup);
+        d.max_steps = case.max_steps;
+        d.invalidate_app(bad, kind != 1, kind != 0);
+        let end = d.run(case.sched, rng, |d| d.count_state(&StateSnap::Idle) >= 1);
+        finish_run(&case, w, d, end)
+    } else {
+        run_case(&case, rng)
+    };
     r.eval(case.shape_key(), true);
     let mut m = Mon::default();
     {
